@@ -244,9 +244,23 @@ Print Assumptions import_regroup_by_canonical_form.
    tuple-index floats, opt-in literal spellings): both sides go through `tree o`, and doc_norm / lit_norm / atom are
    specified only by the validated code;  (b) the checker compares flatten (norm_items ..), i.e. `norm`: injectivity
    of flatten on normal forms is not proved;  (c) import_regroup is stated through the canonical strings, whose
-   rendering is ambiguous (use_head_ambiguous_refuted). *)
+   rendering is ambiguous (use_head_ambiguous_refuted).
+   The converse does NOT hold: the checker (equality of normal forms) is STRICTLY FINER than EquivF.  EquivF is closed
+   under symmetry and transitivity through ill-formed intermediate trees and so relates programs that norm tells
+   apart, e.g. a one-element tuple pattern and the parenthesised pattern (Equiv_tuple_comma_refuted below; Equiv is
+   included in EquivF by Equiv_in_EquivF).  What separates two programs is norm, never the relation. *)
 Theorem norm_sound : forall (o : opts) (a b : list tok),
   post_safe o a -> post_safe o b -> norm_items o a = norm_items o b ->
   EquivF o CTop (tree o (significant a)) (tree o (significant b)).
 Proof. exact norm_sound_lemma. Qed.
 Print Assumptions norm_sound.
+
+(* one-element tuples.  The checker keeps the trailing comma of a `(` group that is not in argument position (arg_pos)
+   and has no other element separator (tuple_commas) (Model.v trim_group; the tp examples of Examples.v).  But Equiv does NOT separate  let (a,) = b;  from
+   let (a) = b; : closed under symmetry and transitivity it passes through the ill-formed  let <> (a,) = b;
+   (an empty `<>` disappears anywhere, as in the prototype), where the group follows `>`.  Equiv is strictly
+   coarser than the checker; what separates the two programs is norm, not the conclusion of norm_sound. *)
+Theorem Equiv_tuple_comma_refuted : exists (o : opts) (a b : list item),
+  norm_seq o None a <> norm_seq o None b /\ Equiv CTop a b.
+Proof. exact Equiv_tuple_comma_refuted_lemma. Qed.
+Print Assumptions Equiv_tuple_comma_refuted.
